@@ -20,6 +20,31 @@ def compressible_airfoil(a0):
     return {"type": "functional", "CL": CL, "CD": CD, "Cm": Cm, "geometry": {"NACA": "0010"}}
 
 
+def curved_sections(ac):
+    """the aircraft with swept wings and cambered sections whose lift curve is not a straight line"""
+    ac = copy.deepcopy(ac)
+
+    def airfoil(a0, aL0):
+        def CL(**kw):
+            al = np.asarray(kw.get("alpha", 0.0), dtype=float)
+            df, cf = kw.get("trailing_flap_deflection", 0.0), kw.get("trailing_flap_fraction", 0.0)
+            x = al - aL0 + 0.6 * np.asarray(cf) * np.asarray(df)
+            return a0 * x - 4.0 * x ** 2
+
+        def CD(**kw):
+            return 0.006 + 0.01 * CL(**kw) ** 2
+
+        def Cm(**kw):
+            return -0.03 + 0.0 * CL(**kw)
+        return {"type": "functional", "CL": CL, "CD": CD, "Cm": Cm, "geometry": {"NACA": "2410"}}
+    ac["airfoils"] = {k_: airfoil(6.0 + 0.1 * j_, -0.03 - 0.01 * j_) for j_, k_ in enumerate(ac["airfoils"])}
+    for w in ac["wings"].values():
+        if "semispan" in w and not isinstance(w.get("sweep"), list):
+            w["sweep"] = 25.0
+        w.pop("ll_offset", None)
+    return ac
+
+
 def run(chk):
     MX = common.setup_env()
     chk.proofs(extra_trusted=["np.linalg.solve is assumed regular at the iterate (invertible Jacobian); uniqueness of the nonlinear solution and the quadratic "
@@ -70,6 +95,12 @@ def run(chk):
             elif kind == "scipy":
                 sd2 = copy.deepcopy(sd)
                 sd2["solver"]["type"] = "scipy_fsolve"
+                if (it // 4) % 2 == 0:
+                    # cambered sections whose lift slope varies with the angle of attack, on swept wings: every section property the residual
+                    # uses has to be evaluated at the current iterate on this path as well
+                    acs = [(nm, curved_sections(ac_), st_, cs_) for nm, ac_, st_, cs_ in acs]
+                    ref = api.solve(gen.build_scene(MX, sd, acs))
+                    chk.count("scipy=curved-sections")
                 other = api.solve(gen.build_scene(MX, sd2, acs))
                 what = "scipy_fsolve"
             else:
@@ -94,7 +125,11 @@ def run(chk):
                             st_h[key] = copy.deepcopy(st[key])
                     hist_sc.set_aircraft_state(state=copy.deepcopy(st_h), aircraft=nm)
                     acs_h.append((nm, ac, st_h, cs))
-                bad_h = api.compare(api.solve(hist_sc), api.solve(gen.build_scene(MX, sdh, acs_h)), rtol=2e-7, atol=2e-8)
+                fresh_h = api.solve(gen.build_scene(MX, sdh, acs_h))
+                # (the documentation says the initial guess is ignored by the linear solver: asked for first, straight after the state change)
+                bad_h = api.compare(copy.deepcopy(hist_sc.solve_forces(initial_guess="previous", **api.ALL_FRAMES)), fresh_h, rtol=2e-7, atol=2e-8)
+                if not bad_h:
+                    bad_h = api.compare(api.solve(hist_sc), fresh_h, rtol=2e-7, atol=2e-8)
                 if bad_h:
                     chk.violation("linear:history", dict(kind="solver-path", what="the linear solver on a scene that was solved in another state before differs from a fresh scene",
                                                          scene=sdh, aircraft=acs_h, first_state=[a[2] for a in acs], differences=bad_h[:8]))
